@@ -1,5 +1,5 @@
 import AasVerif.Lemmas.JsonSchemaGenerate
-import AasVerif.Lemmas.JsonSchemaClass
+import AasVerif.Lemmas.JsonSchemaLeaf
 /-!
 # C11 — JSON Schema is valid and never rejects valid data
 
@@ -162,6 +162,19 @@ theorem valid_data_accepted_standalone (defs : Defs) {c : Cls} {k : Text} {s : S
     (hnm : ∀ p ∈ c.props, p.name ≠ modelTypeKey) (j : Json) (hok : StandaloneOK defs c j) :
     Valid defs s j :=
   (standalone_iff defs h hleaf hroot hown hnd hnm j).mpr hok
+
+/-- **One level of the hierarchy, exactly** (the induction step of `valid_data_accepted` and of C12's
+`constraint_enforced` along the `allOf` chain): the definition of a concrete class without concrete
+descendants accepts a JSON value iff every parent definition it references accepts the value and the
+class body holds (`BodyOK`: an object — demanded here only for a root class —, every own required
+member present, `modelType` pinned and, if no parent carries it, present, every own member value
+satisfying its annotation (`Sat`), every inherited member value satisfying the tightening steps the
+class adds to the top node of its annotation). -/
+theorem leaf_class_iff (defs : Defs) {c : Cls} {k : Text} {s : Schema}
+    (h : concreteDefinition c = .ok (k, s)) (hleaf : c.cdesc = [])
+    (hnd : (c.props.map (·.name)).Nodup) (hnm : ∀ p ∈ c.props, p.name ≠ modelTypeKey) (j : Json) :
+    Valid defs s j ↔ (∀ i ∈ c.inh, Valid defs (refTo i.refName) j) ∧ BodyOK defs c j :=
+  concrete_leaf_iff defs h hleaf hnd hnm j
 
 /-- **C11c — dispatch is exclusive** (at-most-one form).  Two concrete classes without concrete
 descendants that carry `modelType` and have different model types never both accept an object that
